@@ -68,7 +68,7 @@ theorem pureStorage_cons (env : Env R) (req : Request) (i : Idx) (rest : List Id
   simp only [pureStorage, List.filterMap_cons, List.filterMap_nil]
   cases env.truth i with
   | none => simp
-  | some v => simp only [Option.some.injEq, List.filter_cons]; split <;> simp
+  | some v => simp only [List.filter_cons]; split <;> simp
 
 /-- the contribution of a retrieved rule -/
 def one (env : Env R) (req : Request) (r : R) : List R := if env.mtch r req then [r] else []
